@@ -9,6 +9,13 @@ import common, nm, export, gen, mach
 
 LEVEL = "translation_validation"
 
+WITNESSES = [
+    ("inverted-class-nested-empty-handlers", 'parser { loop { try { /[^ab]/; } catch { try { "a"; } catch { } } } }', ["-O1"], [98]),
+    ("overflow-into-empty-handler", 'out str[3] s; parser { loop { try { s += /\\w/; } catch (outofspace) { } } }', ["-O1"], [48, 48, 48, 48]),
+    ("break-as-first-statement", 'parser { loop { loop { break; "a"; } } }', ["-O1"], [0]),
+    ("yield-on-immediate-done-transition", 'yieldcode LP, RP; parser { optional { loop { case { "(" -> { yield LP; } ")" -> { yield RP; } } } } }', ["-O3", "-fyield-support"], [40]),
+]
+
 
 def profile():
     return gen.Profile(loop=5, optional=3, try_=3, wait=2, case=3, foreach=2, if_=2, break_=2, finish=1, max_stmts=4)
@@ -67,6 +74,29 @@ def run(ctx):
         else:
             ctx.violation("nospin-checker:%s:%s" % (name, lvl), "checker failed on an accepted machine: " + res[:100],
                           {"program": src, "flags": fl, "broken": "certificate NoSpin.nospin_cert"}, found_input=False)
+    # known findings: accepted programs that can spin, which the generators above do not produce (reported by a seeding
+    # sub-agent as holes of the unchanged tree); one witness each, re-checked on every run, replayed on the gcc-built parser
+    import cdrv, shutil
+    for key, wsrc, wfl, winp in WITNESSES:
+        wr = nm.compile_source(wsrc, wfl, want_c=True)
+        if wr["verdict"] != "ok":
+            ctx.log("witness %s: now %s" % (key, wr["verdict"])); continue
+        ww = mach.run_machk([mach.task_nospin(wr["machines"]["post_optimize"])])[0]
+        if ww == "ok":
+            ctx.log("witness %s: the finding no longer reproduces" % key); continue
+        wd = os.path.join(common.BUILD, "c04", "w")
+        obs = None
+        try:
+            Pw = cdrv.prepare(wsrc, wfl, wd)
+            if Pw["ok"]:
+                rc_, lines_, err_ = cdrv.run_c(Pw["wd"], Pw["cp"].init_vals() + "\nrun 1 %d %s 0\n" % (len(winp), " ".join(map(str, winp))), timeout=5)
+                obs = {"exit": rc_, "note": "124 = feed did not return within 5 s", "calls": lines_[:4]}
+        except Exception as e:
+            obs = {"error": repr(e)[:200]}
+        finally:
+            shutil.rmtree(wd, ignore_errors=True)
+        ctx.violation("spin:witness:" + key, "accepted program whose parser can go round without consuming input (%s)" % ww,
+                      {"program": wsrc, "flags": wfl, "input": winp, "certificate": ww, "binary": obs, "broken": "certificate NoSpin.nospin_cert"}, found_input=True)
     # in-Coq certificates (kernel-checked) for a sample of small machines
     small = [x for x in machines if len(x[4]["states"]) <= 40]
     ctx.rng.shuffle(small)
